@@ -293,7 +293,6 @@ func isCondTest(in ssa.Instruction) bool {
 // deliberately not propagated.
 var discardTable = map[string]string{
 	"(*Context).Log10 -> (*Context).Ln":                "Log10 raises Inexact itself and re-rounds; Ln's flags describe the intermediate",
-	"(*Context).Exp -> (*Context).Quo":                 "argument reduction r = x/10^t; Exp reports Inexact|Rounded itself",
 	"(*loop).done -> (*Context).Sub":                   "convergence delta; only the error matters",
 	"(*Decimal).SetFloat64 -> (*Decimal).SetString":    "API has no Condition result",
 	"(*Decimal).Scan -> (*Decimal).SetString":          "API has no Condition result",
@@ -308,9 +307,7 @@ var discardTable = map[string]string{
 }
 
 // partialDropOK: (function -> callee) pairs whose flags are deliberately left out of some returns.
-var partialDropOK = map[string]string{
-	"(*Context).Cbrt -> (*Context).round": "the exact-cube return deliberately reports no flags (C11.R2 checks its guard)",
-}
+var partialDropOK = map[string]string{}
 
 // alwaysPropagated: the flag producers whose result describes the value just stored in the destination;
 // it must be part of the Condition of every later non-error return (helpers returning (set, res, err)
